@@ -84,6 +84,7 @@ type Exec struct {
 	HavocCallsC *Contract   // synthetic contract of `havoccalls` (nil when the unit does not use it)
 	Kept        []keptField // fields kept across abstracted calls
 	HavocSites  []havocSite
+	AbstractNames map[string]bool // callees abstracted by name in a havoccalls unit (clause abstractcall)
 }
 
 func NewExec(l *Loader, unit string) *Exec {
@@ -286,7 +287,7 @@ func (ex *Exec) runFunc(fn *ssa.Function, args []Val, bindings []Val, st *State,
 			conds = append(conds, e.cond)
 			vals = append(vals, fx.retVals[i])
 		}
-		rv, err = mergeVals(conds, vals)
+		rv, err = mergeVals(relativeConds(conds), vals)
 		if err != nil {
 			fail("%s: merging return values: %v", fn, err)
 		}
